@@ -24,6 +24,10 @@ CHECKS = {
    text="One or two iterator tasks of every non-destructive form (Queue.Iterator/Producer; Deque Iterator, IteratorReverse, Producer, ProducerReverse, ProducerBlocking, ProducerReverseBlocking) step while other tasks add and (second family) remove items under seeded schedules, then the container is closed or the iterator contexts cancelled. Oracles: no panic; every yielded value was added; without removals the yielded sequence is a gap-free prefix of the add order, a blocked iterator at quiescence has seen every item present, blocking forms return io.EOF after Close having yielded everything and return after cancel, non-blocking forms end with io.EOF.",
    note="Reverse variants are fed with PushFront so that 'container order as seen by the iterator' equals add order. Two blocking Deque iterators can livelock inside the library (Signal before every Wait); those runs are budget-inconclusive.",
    tech=TECH + "; prefix-of-add-order and quiescence oracles"),
+ "C13": dict(cat="exploration", ref="§1.7, §2 C13",
+   text="The Go race detector (ThreadSanitizer) runs on the instrumented library under simulator-chosen schedules: 2-4 tasks call tape-chosen public methods of one shared Queue(+Distributor, iterators), Deque(+Distributors, six producers/iterators), fun.WaitGroup, erc.Collector (incl. using a Resolve()d error and an Iterator while others Add), adt.Map/Atomic/Synchronized/Once/Pool, synchronized dt.Set, and Lock/Once/Limit wrappers around callbacks that touch unsynchronised counters; a second family runs every drawn pair of methods as a two-task workload. The scheduler's own hand-offs are hidden from TSan (RaceDisable + go:norace in simrt), so it sees exactly the program's happens-before edges. Oracle: zero reports with a tychoish/fun frame on both access stacks.",
+   note="Trusts ThreadSanitizer (no false positives; detects unordered conflicting accesses that a run executes). A report without a fun frame on both sides is treated as a harness error (exit 2). pubsub.Broker drivers are part of the C09 build-out.",
+   tech="deterministic simulation in race mode: Go race detector under seeded one-task-at-a-time schedules over the AST-instrumented copy"),
 }
 NA = [
  ("C16", "dt.List/dt.Stack are single-goroutine data structures: the property quantifies over operation sequences only; there is no schedule, clock, fault or interleaving for a simulator to own (pure model-based testing target)."),
